@@ -17,6 +17,11 @@
   built with the same rule as `map_cycle_to_samples_augmented`, NaN where no augmented segment
   exists, `add_cycle_metric` raising on a length mismatch, atomic `pick_cycle_subset` that
   accepts an empty selection, subset export driven by the stored subset vector.
+
+  `compute_cycle_metric` does not check the length of the per-sample vector: the label-lookup
+  route (`use_cache=False`) indexes with integer arrays and raises IndexError on a too short
+  vector, the slice-cache route computes on clipped slices.  The model keeps that difference
+  (`fancy` vs `sliceVals`); C15's cache theorems assume one value per sample.
 -/
 import EmdModel.Protocol
 import EmdModel.Cycles
@@ -199,9 +204,25 @@ def maxLabel (cv : List Int) : Int := cv.foldl max (-1)
 /-- `np.max(cycle_vect) + 1` (labels are ≥ -1) -/
 def nLabels (cv : List Int) : Nat := (maxLabel cv + 1).toNat
 
-/-- `get_cycle_stat_from_samples` -/
+/-- the result of `get_cycle_stat_from_samples` when no index is out of range (every sample has a
+    value): entry k is `f` on the values of the samples labelled k.  The code-shaped routine, which
+    raises IndexError on a too short value vector, is `lookupStatE` below. -/
 def lookupStat (f : List Rat → Rat) (cv : List Int) (vals : List Rat) : List Val :=
   (List.range (nLabels cv)).map fun (k : Nat) => some (f (samplesOf cv vals (k : Int)))
+
+/-- `vals[inds]` with an integer index array (NumPy fancy indexing): IndexError as soon as one index
+    is out of bounds — unlike `vals[start:stop]` (`sliceVals`), which clips silently. -/
+def fancy (vals : List Rat) (inds : List Nat) : Except Err (List Rat) :=
+  if inds.all (fun i => decide (i < vals.length)) then .ok (inds.map fun i => vals[i]?.getD 0) else .error .index
+
+/-- the `for ii in range(ncycles)` loops: the first failing iteration aborts the whole call -/
+def collect : List (Except Err Val) → Except Err (List Val)
+  | [] => .ok []
+  | .error e :: _ => .error e
+  | .ok v :: t =>
+    match collect t with
+    | .error e => .error e
+    | .ok r => .ok (v :: r)
 
 /-- run-length encoding of the label vector: (label, length) of every maximal constant run -/
 def rle : List Int → List (Int × Nat)
@@ -243,7 +264,8 @@ def augInds (thr : Rat) (ph : List Rat) (cv : List Int) (k : Nat) : Option (Nat 
     | none => none
     | some e => some (t, e + 1)
 
-/-- `get_augmented_cycle_stat_from_samples` -/
+/-- the result of `get_augmented_cycle_stat_from_samples` when no index is out of range
+    (code-shaped routine with the IndexError: `lookupAugStatE`) -/
 def lookupAugStat (f : List Rat → Rat) (thr : Rat) (ph : List Rat) (cv : List Int) (vals : List Rat) : List Val :=
   (List.range (nLabels cv)).map fun k =>
     match augInds thr ph cv k with
@@ -263,14 +285,30 @@ inductive Mode where
   | cycle | augmented
   deriving DecidableEq, Repr
 
-/-- the four branches of `compute_cycle_metric` -/
+/-- `get_cycle_stat_from_samples` as the code runs it: `vals[map_cycle_to_samples(cv, k)]` is an
+    integer-array lookup and raises IndexError when a sample of cycle k has no value -/
+def lookupStatE (f : List Rat → Rat) (cv : List Int) (vals : List Rat) : Except Err (List Val) :=
+  collect ((List.range (nLabels cv)).map fun (k : Nat) =>
+    (fancy vals (indicesOf cv (k : Int))).map fun seg => some (f seg))
+
+/-- `get_augmented_cycle_stat_from_samples` as the code runs it: `vals[np.arange(trough, stop)]` -/
+def lookupAugStatE (f : List Rat → Rat) (thr : Rat) (ph : List Rat) (cv : List Int) (vals : List Rat) :
+    Except Err (List Val) :=
+  collect ((List.range (nLabels cv)).map fun k =>
+    match augInds thr ph cv k with
+    | none => .ok none
+    | some s => (fancy vals (List.range' s.1 (s.2 - s.1))).map fun seg => some (f seg))
+
+/-- the four branches of `compute_cycle_metric`.  There is no length check on `vals`: the two
+    label-lookup branches raise IndexError on a too short vector, the two slice-cache branches
+    compute on the clipped slices. -/
 def cycleStat (cache : Bool) (mode : Mode) (f : List Rat → Rat) (thr : Rat) (ph : List Rat)
-    (cv : List Int) (vals : List Rat) : List Val :=
+    (cv : List Int) (vals : List Rat) : Except Err (List Val) :=
   match cache, mode with
-  | false, .cycle => lookupStat f cv vals
-  | true, .cycle => sliceStat f vals ((sliceCache cv).map some)
-  | false, .augmented => lookupAugStat f thr ph cv vals
-  | true, .augmented => sliceStat f vals (augSlices thr ph none (sliceCache cv))
+  | false, .cycle => lookupStatE f cv vals
+  | true, .cycle => .ok (sliceStat f vals ((sliceCache cv).map some))
+  | false, .augmented => lookupAugStatE f thr ph cv vals
+  | true, .augmented => .ok (sliceStat f vals (augSlices thr ph none (sliceCache cv)))
 
 /-! ### chain statistics (`get_chain_stat_from_samples`, always by lookup) -/
 
@@ -334,7 +372,9 @@ def addMetric (s : State) (name : Name) (v : List Val) : State × Except Err Out
 
 def computeMetric (s : State) (name : Name) (vals : List Rat) (f : List Rat → Rat) (mode : Mode) :
     State × Except Err Out :=
-  addMetric s name (cycleStat s.cache mode f s.thr s.phase s.cv vals)
+  match cycleStat s.cache mode f s.thr s.phase s.cv vals with
+  | .error e => (s, .error e)
+  | .ok v => addMetric s name v
 
 def fFirst (l : List Rat) : Rat := l.head?.getD 0
 def fLast (l : List Rat) : Rat := l.getLast?.getD 0
@@ -506,7 +546,7 @@ def readOps : Nat → Nat → List (List Rat) → Option (List Op × FTable)
       | nm :: vals :: rest' => do
         let name ← toChars? nm
         let f ← namedF fc
-        if vals.length ≠ nsamp then none
+        -- no length check here: `compute_cycle_metric` has none either (see `cycleStat`)
         let mode ← (if md = 0 then some Mode.cycle else if md = 1 then some Mode.augmented else none)
         let (ops, t) ← readOps fuel nsamp rest'
         some (Op.computeMetric name vals f mode :: ops, t)
